@@ -1,20 +1,197 @@
-(** * UtilProofs: capPow2 (util.go). Property C15 (capacity bound after Shrink), C01 (growth). To be filled. *)
+(** * UtilProofs: capPow2 (util.go). Property C15 (capacity bound after Shrink), C01 (growth). *)
 From Ark Require Import Model.Base Model.Util.
+From Coq Require Import Lia ZifyN ZifyNat ZifyBool.
+
+(** ** The nat function *)
+
+(** Invariant of the doubling loop started at [2^k] with [2^k < 2n]. *)
+Lemma pow2_ge_spec : forall fuel k n,
+  1 <= n -> n <= Nat.pow 2 (k + fuel) -> Nat.pow 2 k < 2 * n ->
+  n <= pow2_ge fuel (Nat.pow 2 k) n /\
+  (exists j, pow2_ge fuel (Nat.pow 2 k) n = Nat.pow 2 j) /\
+  pow2_ge fuel (Nat.pow 2 k) n < 2 * n.
+Proof.
+  induction fuel as [|f IH]; intros k n Hn Hub Hlt.
+  - cbn [pow2_ge]. rewrite Nat.add_0_r in Hub.
+    split; [exact Hub|]. split; [exists k; reflexivity|exact Hlt].
+  - cbn [pow2_ge].
+    destruct (Nat.leb_spec n (Nat.pow 2 k)) as [Hle|Hgt].
+    + split; [exact Hle|]. split; [exists k; reflexivity|exact Hlt].
+    + change (2 * Nat.pow 2 k) with (Nat.pow 2 (S k)).
+      apply IH.
+      * exact Hn.
+      * replace (S k + f) with (k + S f) by lia. exact Hub.
+      * change (Nat.pow 2 (S k)) with (2 * Nat.pow 2 k). lia.
+Qed.
+
+Lemma pow2_31_le_32 : Nat.pow 2 31 <= Nat.pow 2 32.
+Proof. apply Nat.pow_le_mono_r; [discriminate|]. repeat constructor. Qed.
+
+Lemma cap_pow2_spec : forall n, 1 <= n -> n <= Nat.pow 2 31 ->
+  n <= cap_pow2 n /\ (exists j, cap_pow2 n = Nat.pow 2 j) /\ cap_pow2 n < 2 * n.
+Proof.
+  intros n Hn Hub. unfold cap_pow2.
+  change 1 with (Nat.pow 2 0) at 2 3 4.
+  apply pow2_ge_spec.
+  - exact Hn.
+  - change (0 + 32) with 32. pose proof pow2_31_le_32. lia.
+  - change (Nat.pow 2 0) with 1. lia.
+Qed.
 
 (** The nat function used by the table model: least power of two >= n. *)
 Theorem cap_pow2_ge : forall n, n <= Nat.pow 2 31 -> n <= cap_pow2 n.
-Admitted.
+Proof.
+  intros n Hub. destruct n as [|n].
+  - apply Nat.le_0_l.
+  - apply cap_pow2_spec; [apply le_n_S, Nat.le_0_l|exact Hub].
+Qed.
+
 Theorem cap_pow2_pow : forall n, n <= Nat.pow 2 31 -> exists k, cap_pow2 n = Nat.pow 2 k.
-Admitted.
+Proof.
+  intros n Hub. destruct n as [|n].
+  - exists 0. reflexivity.
+  - apply cap_pow2_spec; [apply le_n_S, Nat.le_0_l|exact Hub].
+Qed.
+
 Theorem cap_pow2_tight : forall n, 1 <= n -> n <= Nat.pow 2 31 -> cap_pow2 n < 2 * n.
-Admitted.
+Proof.
+  intros n Hn Hub. apply cap_pow2_spec; assumption.
+Qed.
+
 Theorem cap_pow2_zero : cap_pow2 0 = 1.
-Admitted.
+Proof. reflexivity. Qed.
+
+(** ** The uint32 bit smearing *)
+
+Local Open Scope N_scope.
+
+(** [Run w x l]: no bit above [l] is set and the [w] bits [l-w+1 .. l] are all set. *)
+Definition Run (w x l : N) : Prop :=
+  (forall i, l < i -> N.testbit x i = false) /\
+  (forall i, i <= l -> l < i + w -> N.testbit x i = true).
+
+Lemma Run_step : forall w x l, Run w x l -> Run (w + w) (N.lor x (N.shiftr x w)) l.
+Proof.
+  intros w x l [Hhi Hlo]. split; intros i.
+  - intros Hi. rewrite N.lor_spec, N.shiftr_spec'.
+    rewrite Hhi by exact Hi. rewrite Hhi by lia. reflexivity.
+  - intros Hi1 Hi2. rewrite N.lor_spec, N.shiftr_spec'.
+    destruct (N.lt_ge_cases l (i + w)) as [H|H].
+    + rewrite Hlo by assumption. reflexivity.
+    + rewrite (Hlo (i + w)) by lia. apply orb_true_r.
+Qed.
+
+Lemma Run_init : forall r, r <> 0 -> Run 1 r (N.log2 r).
+Proof.
+  intros r Hr. split; intros i.
+  - intros Hi. apply N.bits_above_log2. exact Hi.
+  - intros H1 H2. replace i with (N.log2 r) by lia. apply N.bit_log2. exact Hr.
+Qed.
+
+Lemma Run_full : forall w x l, l < w -> Run w x l -> x = N.ones (N.succ l).
+Proof.
+  intros w x l Hl [Hhi Hlo]. apply N.bits_inj. intros i.
+  destruct (N.lt_ge_cases l i) as [H|H].
+  - rewrite Hhi by exact H. rewrite N.ones_spec_high by lia. reflexivity.
+  - rewrite Hlo by lia. rewrite N.ones_spec_low by lia. reflexivity.
+Qed.
+
+Definition smear (r : N) : N :=
+  let r := N.lor r (N.shiftr r 1) in
+  let r := N.lor r (N.shiftr r 2) in
+  let r := N.lor r (N.shiftr r 4) in
+  let r := N.lor r (N.shiftr r 8) in
+  let r := N.lor r (N.shiftr r 16) in
+  r.
+
+Lemma smear_spec : forall r, r <> 0 -> N.log2 r < 32 -> smear r = N.ones (N.succ (N.log2 r)).
+Proof.
+  intros r Hr Hl. unfold smear. cbv zeta.
+  apply (Run_full 32); [exact Hl|].
+  apply (Run_step 16).
+  apply (Run_step 8).
+  apply (Run_step 4).
+  apply (Run_step 2).
+  apply (Run_step 1).
+  apply Run_init. exact Hr.
+Qed.
+
+Lemma capPow2N_unfold : forall n, n <> 0 -> capPow2N n = u32 (smear (u32 (n - 1)) + 1).
+Proof.
+  intros n Hn. unfold capPow2N, smear.
+  destruct (N.eqb_spec n 0) as [E|_]; [contradiction|]. reflexivity.
+Qed.
+
+(** For [2 <= n <= 2^31] the result is the power of two [p] with [n <= p < 2n]. *)
+Lemma capPow2N_spec : forall n, 2 <= n -> n <= 2 ^ 31 ->
+  exists j, capPow2N n = 2 ^ j /\ n <= 2 ^ j /\ 2 ^ j < 2 * n.
+Proof.
+  intros n Hn Hub.
+  assert (H31 : 2 ^ 31 = 2147483648) by reflexivity.
+  rewrite capPow2N_unfold by lia.
+  remember (n - 1) as r eqn:Er.
+  assert (Hr0 : r <> 0) by lia.
+  assert (Hr : r < 2 ^ 31) by lia.
+  assert (Hlog : N.log2 r < 31) by (apply N.log2_lt_pow2; [lia|exact Hr]).
+  assert (Hu : u32 r = r).
+  { unfold u32. apply N.mod_small. lia. }
+  rewrite Hu, smear_spec by (try exact Hr0; lia).
+  rewrite N.ones_equiv.
+  assert (Hpos : 2 ^ N.succ (N.log2 r) <> 0) by (apply N.pow_nonzero; discriminate).
+  replace (N.pred (2 ^ N.succ (N.log2 r)) + 1) with (2 ^ N.succ (N.log2 r)) by lia.
+  destruct (N.log2_spec r) as [Hlo Hhi]; [lia|].
+  assert (Hle : 2 ^ N.succ (N.log2 r) <= 2 ^ 31).
+  { apply N.pow_le_mono_r; [discriminate|lia]. }
+  exists (N.succ (N.log2 r)). split; [|split].
+  - unfold u32. apply N.mod_small. lia.
+  - lia.
+  - rewrite N.pow_succ_r'. lia.
+Qed.
+
+Lemma pow2_unique : forall a b n, n <= 2 ^ a -> 2 ^ a < 2 * n -> n <= 2 ^ b -> 2 ^ b < 2 * n -> 2 ^ a = 2 ^ b.
+Proof.
+  assert (Haux : forall a b n, a < b -> n <= 2 ^ a -> 2 ^ b < 2 * n -> False).
+  { intros a b n Hab H1 H2.
+    assert (2 ^ N.succ a <= 2 ^ b) by (apply N.pow_le_mono_r; [discriminate|lia]).
+    rewrite N.pow_succ_r' in H. lia. }
+  intros a b n Ha1 Ha2 Hb1 Hb2.
+  destruct (N.lt_trichotomy a b) as [H|[H|H]].
+  - exfalso. eapply (Haux a b n); eassumption.
+  - subst. reflexivity.
+  - exfalso. eapply (Haux b a n); eassumption.
+Qed.
+
+Local Close Scope N_scope.
 
 (** The uint32 bit-twiddling of util.go computes the same function for every required size up to 2^31. *)
 Theorem capPow2N_correct : forall n, n <= Nat.pow 2 31 -> capPow2N (N.of_nat n) = N.of_nat (cap_pow2 n).
-Admitted.
+Proof.
+  intros n Hub.
+  destruct n as [|[|m]]; [reflexivity|reflexivity|].
+  set (n := S (S m)) in *.
+  assert (Hn1 : 1 <= n) by (unfold n; lia).
+  assert (Hn2 : 2 <= n) by (unfold n; lia).
+  destruct (cap_pow2_spec n Hn1 Hub) as (Hge & (j & Hj) & Htight).
+  assert (HubN : (N.of_nat n <= 2 ^ 31)%N).
+  { change 31%N with (N.of_nat 31). change 2%N with (N.of_nat 2).
+    rewrite <- Nat2N.inj_pow. lia. }
+  destruct (capPow2N_spec (N.of_nat n)) as (j' & Hj' & Hge' & Htight'); [lia|exact HubN|].
+  assert (HjN : N.of_nat (Nat.pow 2 j) = (2 ^ N.of_nat j)%N).
+  { rewrite Nat2N.inj_pow. reflexivity. }
+  rewrite Hj in Hge, Htight.
+  rewrite Hj', Hj, HjN.
+  apply (pow2_unique j' (N.of_nat j) (N.of_nat n)); try assumption.
+  - rewrite <- HjN. lia.
+  - rewrite <- HjN. lia.
+Qed.
 
 (** Beyond 2^31 the uint32 computation wraps to 0 (the model's tables never get there). *)
 Theorem capPow2N_overflow : capPow2N (2147483649)%N = 0%N.
-Admitted.
+Proof. vm_compute. reflexivity. Qed.
+
+Print Assumptions cap_pow2_ge.
+Print Assumptions cap_pow2_pow.
+Print Assumptions cap_pow2_tight.
+Print Assumptions cap_pow2_zero.
+Print Assumptions capPow2N_correct.
+Print Assumptions capPow2N_overflow.
